@@ -16,6 +16,9 @@ CLAIMED = {
  "C11": dict(
    text="Exclusivity is a postcondition of the one function that computes completion; stability clauses S1/S2 are postconditions of every closure that can change the state, for every pre-state.",
    note="A-ACT; go/ssa; SMT solvers; one recorded finding (int64 wrap-around in IncrInt64, KNOWN_FINDINGS.txt)", ref="4 C11"),
+ "C19": dict(
+   text="Every method and constructor of proxyreader.go/proxywriter.go is verified: one underlying call with the caller's arguments, results returned unchanged, one increment by exactly the byte count returned, the fast path (WriterTo/ReaderFrom) offered iff the wrapped value has it (type-invariants make the unchecked assertions safe), the ewma flavour chosen iff asked for, and each moving-average decorator is handed every sample with its duration.",
+   note="call records count the direct calls of each function (modular: IncrBy -> IncrInt64 -> closure are separate contracts); io.NopCloser forwards WriterTo (go >= 1.20, assumed); behaviour of the wrapped reader/writer is not constrained", ref="4 C19"),
 }
 
 NA = {
